@@ -108,6 +108,26 @@ def jsonNameAux : Bool → Str → Str
 
 def jsonName (s : Str) : Str := jsonNameAux false s
 
+def nextIsLower : Str → Bool
+  | c :: _ => isLowerAscii c
+  | [] => false
+
+/-- protogen's `strs.GoCamelCase` (Go field / message / method identifiers).
+`prev` is the previous input character, `inRun` says we are inside the lower-case run that
+follows a capitalised letter. -/
+def goCamelAux : Option Char → Bool → Str → Str
+  | _, _, [] => []
+  | prev, inRun, c :: rest =>
+    if inRun && isLowerAscii c then c :: goCamelAux (some c) true rest
+    else if c = '.' && nextIsLower rest then goCamelAux (some c) false rest
+    else if c = '.' then '_' :: goCamelAux (some c) false rest
+    else if c = '_' && (prev == none || prev == some '.') then 'X' :: goCamelAux (some c) false rest
+    else if c = '_' && nextIsLower rest then goCamelAux (some c) false rest
+    else if isDigitAscii c then c :: goCamelAux (some c) false rest
+    else toUpperAscii c :: goCamelAux (some c) true rest
+
+def goCamelCase (s : Str) : Str := goCamelAux none false s
+
 /-- `strings.TrimPrefix(h, "X-")`. -/
 def trimXDash : Str → Str
   | 'X' :: '-' :: r => r
